@@ -5,6 +5,7 @@ vc:      formats.bin_, formats.raw, bk_wav.make_wav_file, bk_wav.encode_data_bit
 closed:  pulse constants of Env == spec/bk_tape.py shapes; ZERO/ONE prefix-free (unique demodulation) for both environments
 rac:     spec demodulator applied to the real encoder's output on a seeded corpus (testing, reported separately)
 """
+import os
 import z3
 from contracts.common import *  # noqa
 from contracts import common
@@ -317,9 +318,49 @@ def unit_bounded_paths(eng):
 
 
 
+def unit_include(eng):
+    """an output requested inside an INCLUDED file resolves against that file's directory: '.include' parses the file under its resolved path
+    (contracts/meta_c.py, shared with C02)"""
+    from contracts import meta_c
+    return meta_c.unit_include(eng)
+
+
+def unit_paths_rac(eng=None, tree=None):
+    """the real command line, started in ANOTHER directory: outputs requested by the main file, by an included file in a sub-directory (by a
+    relative and by a default name) and by a file included from there land beside the file that asks for them"""
+    import subprocess
+    import tempfile
+    import shutil
+    tree = tree or driver.tree_root()
+    d = tempfile.mkdtemp(prefix="pyvc-c13-paths-")
+    bad = []
+    try:
+        os.makedirs(os.path.join(d, "proj", "sub", "deep"))
+        os.makedirs(os.path.join(d, "work"))
+        open(os.path.join(d, "proj", "main.mac"), "w").write('mov #1, r0\nmake_raw "main.raw"\n.include "sub/part.mac"\nmake_bin\n')
+        open(os.path.join(d, "proj", "sub", "part.mac"), "w").write('nop\nmake_raw "part.raw"\nmake_bin\n.include "deep/leaf.mac"\nmake_wav "tape.wav", "NAME"\n')
+        open(os.path.join(d, "proj", "sub", "deep", "leaf.mac"), "w").write('halt\nmake_raw "../up.raw"\nmake_raw\n')
+        p = subprocess.run(["/venv/bin/python", "-c", "import sys; sys.path.insert(0, %r); sys.argv = ['pdpy11'] + sys.argv[1:]; from pdpy11._cli import main_cli; main_cli()" % tree,
+                            "../proj/main.mac"], cwd=os.path.join(d, "work"), capture_output=True, text=True, timeout=120)
+        found = sorted(os.path.relpath(os.path.join(r_, f), d) for r_, _, fs in os.walk(d) for f in fs if not f.endswith(".mac"))
+        want = sorted(["proj/main.raw", "proj/main.bin", "proj/sub/part.raw", "proj/sub/part.bin", "proj/sub/tape.wav", "proj/sub/up.raw", "proj/sub/deep/leaf"])
+        if p.returncode != 0 or found != want:
+            bad.append(dict(exit=p.returncode, files_written=found, expected=want, stderr=p.stderr[-300:]))
+        else:
+            img = bytes.fromhex("c0150100" + "a000" + "0000")
+            for f in ("proj/main.raw", "proj/sub/part.raw", "proj/sub/up.raw", "proj/sub/deep/leaf"):
+                if open(os.path.join(d, f), "rb").read() != img:
+                    bad.append(dict(file=f, holds=open(os.path.join(d, f), "rb").read().hex(), expected=img.hex()))
+    finally:
+        shutil.rmtree(d, ignore_errors=True)
+    ob = dict(label="outputs-requested-by-main-included-and-nested-files-land-beside-the-requesting-file-whatever-the-working-directory", kind="rac", status="proved" if not bad else "failed", secs=0.0,
+              path=[], witness=None, detail=str(bad[:2])[:1500], events=[], smt2=None, backend="cpython-native", unit="paths-rac", func="_cli.main_cli (run-time check)", cases=1, cfg=dict(kind="paths-rac"))
+    return dict(unit="paths-rac", func="_cli.main_cli (run-time check)", paths=1, obligations=[ob], wall=0.0, bad=bad)
+
+
 def units(tier):
     us = [("bin", "unit_bin", {}), ("raw", "unit_raw", {}), ("make_wav", "unit_make_wav", {}), ("constants", "unit_constants", {}),
-          ("demodulate-rac", "unit_demodulate_rac", dict(tier=tier)), ("bounded-paths", "unit_bounded_paths", {})]
+          ("demodulate-rac", "unit_demodulate_rac", dict(tier=tier)), ("bounded-paths", "unit_bounded_paths", {}), ("include", "unit_include", {}), ("paths-rac", "unit_paths_rac", {})]
     for n in (0, 1, 2):
         us.append(("data_bits[%d]" % n, "unit_data_bits", dict(n=n)))
     for turbo in (False, True):
@@ -402,6 +443,9 @@ def replay_add_emitted(o, tree):
 
 
 def replay(o, tree):
+    if (o.get("cfg") or {}).get("kind") in ("include", "paths-rac") or o.get("unit") == ".include":
+        r = unit_paths_rac(None, tree)
+        return dict(jobs=None, experiment="the real command line started in another directory (contracts/c13.py unit_paths_rac)", observed=r["bad"][:1], reproduced=bool(r["bad"]))
     cfg = o.get("cfg") or {}
     w = o.get("witness") or {}
     if o.get("kind") == "bounded":
